@@ -147,6 +147,12 @@ func (lv *c10Live) execReal(e *Env, c int, op *c10Op) (recorded, ok bool) {
 		data = append([]byte{}, cc.Bin...)
 		args, _ := cc.ABI.Pack("", f.ts)
 		data = append(data, args...)
+	case "create-selfreg":
+		// a creation whose init code registers the contract being created with the Turnstile (msg.sender = the new
+		// address) and leaves a one-byte runtime: the creation's own fee must still be burned whole, although the new
+		// contract is registered by the time the hook looks its target up
+		to = nil
+		data = c06SelfRegisteringInit(f.ts)
 	default:
 		panic("unknown real kind " + r.Kind)
 	}
@@ -181,6 +187,7 @@ func (lv *c10Live) execReal(e *Env, c int, op *c10Op) (recorded, ok bool) {
 		a.CSRKeeper.SetParams(lv.ctx, c10ParamsOf(*op.SetParams))
 		lv.params = *op.SetParams
 	}
+	c10GhostParams(a, lv.ctx, lv.params)
 	gasUsed := res0.GasUsed
 	r.GasUsed = fmt.Sprint(gasUsed)
 	// at keeper level nobody paid the fee: put limit * price into the collector (fee + the refund of unused gas)
@@ -264,8 +271,10 @@ func c10GenRealOp(e *Env, lv *c10Live) c10Op {
 	case r < 40 && len(lv.obs.csrs) > 0:
 		op.Real.Kind = "assign"
 		op.Real.ID = fmt.Sprint(lv.obs.csrs[e.Pick(len(lv.obs.csrs))].Id)
-	case r < 50:
+	case r < 45:
 		op.Real.Kind = "create"
+	case r < 52:
+		op.Real.Kind = "create-selfreg"
 	case r < 80:
 		op.Real.Kind = "call-registered"
 	case r < 90:
